@@ -334,12 +334,31 @@ def sized_equals_written(fx):
 
 
 def _caller_convention(fx, enc):
-    # the statements of _encode that derive what write_segment is told about the version: found by the call's arguments
-    calls = [c for c in src.calls_in(enc, 'write_segment')]
-    names = set()
-    if len(calls) == 1 and len(calls[0].args) >= 4:
-        names = {a.id for a in calls[0].args[2:4] if isinstance(a, ast.Name)}
-    return _caller_convention_named(fx, enc, names or {'ver', 'ver_range'})
+    """What _encode tells write_segment about the version: (version) -> the (ver, ver_range) arguments of the call, read from
+    a stage trace of _encode (every stage but the call itself replaced by a recorder)."""
+    from .models import trace_encode
+    mv = micro_versions(fx)
+    inv = {rv: v for v, rv in mv.items()}
+    wsf = fx.fn('encoder', 'write_segment')
+    pnames = src.params(wsf)
+    need(len(pnames) >= 4, 'write_segment(buff, segment, ver, ver_range, ...)')
+    cache = {}
+
+    def conv(rv, vr):
+        if rv in cache:
+            return cache[rv]
+        v = inv.get(rv, rv)
+        level = iso.levels_of(v)[0]
+        rec, _, _ = trace_encode(fx, rv, level, level)
+        calls = [r for r in rec if r[0] == 'write_segment']
+        need(calls, '_encode does not call write_segment')
+        a, k = calls[0][1], calls[0][2]
+        vals = dict(zip(pnames, a))
+        vals.update(k)
+        need(pnames[2] in vals and pnames[3] in vals, '_encode: write_segment is called without its version arguments')
+        cache[rv] = (vals[pnames[2]], vals[pnames[3]])
+        return cache[rv]
+    return conv
 
 
 def _caller_convention_named(fx, enc, names):
